@@ -5,6 +5,7 @@
   table — a constant of this file, not taken from the parser).
 -/
 import Nlmodel.Model.Parser
+import Nlmodel.Model.Value
 namespace Nl
 
 /-! ## tokens → text (C08) -/
@@ -140,7 +141,7 @@ def printParams : List Text → List Token
 mutual
 /-- an expression in "top" position (statement, argument, parenthesised, block value, condition) -/
 def printE : Expr → List Token
-  | .int v => [.int (toString v).toList]
+  | .int v => [.int (natToDec v.toNat)]
   | .float x => [.float (floatLit x)]
   | .bool b => [if b then .kwTrue else .kwFalse]
   | .str s => [.str (escape s)]
